@@ -905,7 +905,9 @@ def _leaf_pool(spec):
                       "192.168.100.0/24", "x", "", "10.0.0.0/8\n", ["10.0.0.0/8"]])
     if t == "Hostname":
         return _uniq(["example.com", "host name", 5, None, "1.2.3.4", "localhost", "a", "ab", "-bad", "host\n",
-                      "h_1", "1.2.3", "a" * 16 + "!", "under_score.example.com", "", "h\tx", ["h"]])
+                      "h_1", "1.2.3", "a" * 16 + "!", "under_score.example.com", "", "h\tx", ["h"],
+                      # names at the length boundary of each syntax class (NetBIOS-only characters: 1, 15 and 16 long)
+                      "_", "a_" * 7 + "a", "a_" * 8])
     if t == "Url":
         return _uniq(["https://example.com/a?b=c", "example.com", 5, None, "HTTP://x", "http://x", "ftp://h",
                       "mailto:a", "//x", "1a:b", "", "http:", ["http://x"]])
